@@ -57,6 +57,10 @@ def small_scenarios(pid):
                            "R wi 1 1 1 set_flag 2", "R wi 1 1 1 wait_flag 3", "R wi 2 1 1 set_flag 3", "R wi 2 1 1 wait_flag 2",
                            "R wi 1 2 1 pool_put 1", "R wi 2 2 1 pool_put 1", "R pool 1 2 1 wait_flag 5",
                            "S spawn 1"] + ["T 1 yield"] * 6 + ["T 1 set_flag 5"]
+    # below the thread limit: a worker finishes while a newer item is queued for a worker that is still starting
+    S["rekick-below-cap"] = ["O pool 1", "O wi 1", "O wi 2", "O tm 1", "S pool_create 1 3", "S submit 1 1", "S tm_reg 1 1 0 1000",
+                             "R wi 1 1 1 wait_flag 1", "R tm 1 0 1 submit 2 1", "R tm 1 0 1 set_flag 1",
+                             "R pool 1 1 2 wait_flag 3", "R wi 1 2 1 set_flag 3", "R wi 2 2 1 pool_put 1"]
     S["null-chain"] = ["O wi 1", "O wi 2", "O wi 3", "O wi 4", "S submit 1 0", "R wi 1 2 1 submit 2 0", "R wi 2 2 1 submit 3 0",
                        "R wi 3 2 1 submit 4 0", "R wi 3 2 1 submit 1 0"]
     S["null-pool"] = ["O wi 1", "O wi 2", "S submit 1 0", "S submit 2 0", "R wi 1 2 1 submit 1 0"]
